@@ -18,6 +18,7 @@ type dep struct {
 	group    string
 	optional bool
 	field    string // In-struct field name (In style) / param name
+	anon     bool   // In style: the field is embedded (anonymous); its name is the type's base name
 }
 
 type out struct {
@@ -133,6 +134,8 @@ func add(c *ctor) *ctor {
 				c.deps[i].field = fmt.Sprintf("priv%d", i)
 			} else if c.deps[i].form == "FEmbedded" || c.deps[i].form == "FEmbeddedIgn" {
 				c.deps[i].field = fmt.Sprintf("E%d", i)
+			} else if c.deps[i].anon {
+				c.deps[i].field = c.deps[i].target // Context / Scope / Provider: the base name of the embedded interface type
 			} else if c.deps[i].form == "FAnon" {
 				c.deps[i].field = c.deps[i].target // an embedded field is named after its type
 			} else {
@@ -384,6 +387,9 @@ func main() {
 	sp(&ctor{name: "InIgnMid_S4", inStyle: true, deps: []dep{{target: "K0", form: "FUnexported"}, mkDep("K1", "FOpt"), {target: "K2", form: "FIgnored"}, mkDep("K3", "FKeyed")}, outs: simpleOut("S4")})
 	sp(&ctor{name: "OutIgnMid_K2K3", resultObj: true, inertFirst: true, outs: []out{{typ: "K2"}, {typ: "K3", key: "k"}}, ignoredOuts: []out{{typ: "S0", impl: "S0", field: "Ign"}}})
 	sp(&ctor{name: "OutIgnMid_S5S6", resultObj: true, inertFirst: true, markerLast: true, outs: []out{{typ: "S5"}, {typ: "S6", group: "g"}}, ignoredOuts: []out{{typ: "S1", impl: "S1", field: "Ign"}}})
+	// built-in injectables as EMBEDDED fields of a parameter object (a request-bound helper that "is" a context)
+	sp(&ctor{name: "BIanon_S6", inStyle: true, deps: []dep{{target: "Context", form: "FContext", anon: true}, {target: "Scope", form: "FScope", anon: true}, {target: "Provider", form: "FProvider"}}, outs: simpleOut("S6")})
+	sp(&ctor{name: "BIanon_K3", inStyle: true, deps: []dep{mkDep("K0", "FOpt"), {target: "Scope", form: "FScope", anon: true}, {target: "Provider", form: "FProvider", anon: true}}, outs: simpleOut("K3"), hasErr: true})
 	writeTypes()
 	writeCtors()
 }
@@ -503,6 +509,12 @@ func writeCtors() {
 					embIgn = append(embIgn, d)
 				case "FAnon":
 					fmt.Fprintf(&b, "\t%s%s\n", d.goType(), d.tag())
+				case "FContext", "FScope", "FProvider":
+					if d.anon {
+						fmt.Fprintf(&b, "\t%s%s\n", d.goType(), d.tag())
+					} else {
+						fmt.Fprintf(&b, "\t%s %s%s\n", d.field, d.goType(), d.tag())
+					}
 				default:
 					fmt.Fprintf(&b, "\t%s %s%s\n", d.field, d.goType(), d.tag())
 				}
